@@ -297,4 +297,26 @@ theorem run_inv {st : PlanSt} (hwf : WF st) : ∀ (post pre : List Nat) (slots :
     intro m hm
     exact key m (by simpa using hm)
 
+theorem strict_ok {args : List Val} (h : args.any Val.isFail = false) (r : Val) : strict args r = r := by
+  simp [strict, h]
+
+theorem toPairs_substKVs (ρ : Nat → Val) : ∀ (kvs : List (PV × PV)),
+    (kvs.all fun p => !(subst ρ p.1).isFail && !(subst ρ p.2).isFail) = true →
+    Val.toPairs (substKVs ρ kvs) = some (kvs.map fun p => (subst ρ p.1, subst ρ p.2)) ∧
+      (substKVs ρ kvs).any Val.isFail = false
+  | [], _ => by simp [substKVs, Val.toPairs]
+  | (k, v) :: rest, h => by
+    simp only [List.all_cons, Bool.and_eq_true, Bool.not_eq_true'] at h
+    obtain ⟨ih1, ih2⟩ := toPairs_substKVs ρ rest h.2
+    cases hc : (k.containsNode || v.containsNode)
+    · simp only [Bool.or_eq_false_iff] at hc
+      simp [substKVs, hc, embed, embedList, Val.toPairs, ih1, ih2, subst_nodefree ρ hc.1, subst_nodefree ρ hc.2,
+        Val.isFail]
+    · have hs : strict [subst ρ k, subst ρ v] (Val.build .tuple [subst ρ k, subst ρ v])
+          = .tuple none [subst ρ k, subst ρ v] := by
+        simp [strict, h.1.1, h.1.2, Val.build]
+      simp [substKVs, hc, hs, Val.toPairs, ih1, ih2, Val.isFail]
+
+instance (st : PlanSt) : Decidable (WF st) := by unfold WF; exact inferInstance
+
 end Uberjob.Plan
